@@ -9,10 +9,12 @@ SPEC = dict(
           "0-2 scripted operations incl. on nodes of its own callback stack; destruction only of nodes outside the callback stack), followed by a "
           "quiet cycle whenever due nodes were deferred.  Oracle rules (1)-(5) of the design against a flat model (node -> attached?, valid?, last "
           "answer).  A case is non-trivial with >= 3 nodes, >= 10 callbacks fired and >= 3 operations performed inside callbacks.  Leg 'server': the real root manager, "
-          "ReflectServer on the real clock, with instrumented factories (some not ready to accept, some wanting pulses), sessions over socket pairs and extra "
+          "ReflectServer on the real clock, with instrumented factories (some not ready to accept, some wanting pulses), sessions over socket pairs (idle / ready for input / with output queued), input and output AbstractSessionIOPolicy objects on some sessions and extra "
           "PulseNode children; ServerProcessLoop(0) steps and 40-60 ms waits; causal verdicts only (asked before every wait, wake-up time == minimum, never "
           "early, nothing due left once ServerProcessLoop(runUntil) has returned and a quiet cycle has run); lateness is not judged"),
-    assumptions=['GetPulseTime() itself performs no operations (only Pulse() callbacks and the code between sweeps do)',
+    assumptions=['GetPulseTime() callbacks also perform operations (invalidate own child / grandchild / sibling / other node, attach a new or detached childless node, detach, re-time); NOT generated there: invalidating the asking node itself or one of its ancestors (their question has already been asked in the running sweep; on the current tree such a non-root node is never asked again; --opt gpt_stack_invalidate=1 generates it), moving attached subtrees, destroying nodes',
+                 'after operations inside GetPulseTime() the reported minimum may be earlier than the minimum over the attached nodes (an answer that entered the running minimum before it was superseded), never later and never below every answer of the sweep; a node invalidated or attached under a root whose sweep was already finished is asked in the next cycle',
+                 'server leg: the server may report a wake-up time earlier than every pulse time while a session has output pending (output stall limits are not pulse nodes)',
                  'a node (or an ancestor) detached by a callback of the running sweep may or may not still fire in that sweep (counted as unspecified_fired_after_detach_in_same_sweep)',
                  'a due node may be deferred to the next cycle when an operation since the last recalculation touched its top-level subtree; the quiet follow-up cycle must fire it',
                  'asking a valid node again is not forbidden by the statement (counted as unspecified_valid_node_asked_again)',
@@ -30,8 +32,15 @@ SPEC = dict(
                          'cb:op_destroy': 175000, 'cb:op_invalidate_clear': 300000, 'cb:op_invalidate_keep': 300000, 'cb:op_invalidate_self': 220000,
                          'cb:op_moved_a_node_of_the_callback_stack': 7000, 'cb:op_detached_a_node_of_the_callback_stack': 5000,
                          'cycles_with_operations_between_recalculation_and_pulse': 330000, 'cases_with_100_or_more_nodes': 2500,
-                         'cases_with_a_single_node': 900, 'cases_with_several_roots': 2300, 'cases_depth_7_or_8': 6000, 'max_nodes': 200, 'max_depth': 8},
+                         'cases_with_a_single_node': 900, 'cases_with_several_roots': 2300, 'cases_depth_7_or_8': 6000, 'max_nodes': 200, 'max_depth': 8,
+                         'actions_inside_getpulsetime': 400000, 'recalculations_with_actions_inside_getpulsetime': 250000,
+                         'actions_inside_getpulsetime_invalidate_own_child': 25000, 'actions_inside_getpulsetime_invalidate_own_grandchild': 7000,
+                         'actions_inside_getpulsetime_invalidate_sibling': 25000, 'actions_inside_getpulsetime_invalidate_other': 50000,
+                         'actions_inside_getpulsetime_attach_under_self': 40000, 'actions_inside_getpulsetime_attach_elsewhere': 35000,
+                         'actions_inside_getpulsetime_attach_due_child': 20000, 'actions_inside_getpulsetime_detach_own_child': 15000,
+                         'actions_inside_getpulsetime_detach_other': 25000, 'actions_inside_getpulsetime_retime': 100000},
                'server': {'server_cases': 600, 'server_timed_loops': 1200, 'server_single_steps': 5000, 'factory_nodes_not_ready_wanting_pulse': 5000,
                           'fires_factory_while_not_ready': 700, 'session_child_nodes': 300, 'fires_server': 1000, 'fires_factory': 1800,
-                          'fires_session': 2500, 'fires_child': 3000, 'asks_factory': 2500, 'cb:srv_op_invalidate': 1500, 'cb:srv_op_attach_child': 700}},
+                          'fires_session': 2500, 'fires_child': 3000, 'asks_factory': 2500, 'policy_nodes': 500, 'asks_policy': 2500, 'fires_policy': 1500, 'policy_nodes_without_ready_holder_wanting_pulse': 5000,
+                          'policy_set_as_input_policy': 300, 'policy_set_as_output_policy': 300, 'cb:srv_op_invalidate': 1500, 'cb:srv_op_attach_child': 700}},
 )
